@@ -158,6 +158,8 @@ func (r *runner) http(st Step) {
 			} else {
 				parts = append(parts, fmt.Sprintf(`{"jsonrpc":"2.0","method":"h","params":{"tag":%q}}`, tag))
 			}
+		case "void": // well-formed as far as the parser goes, but nothing: no id, no method
+			parts = append(parts, `{"jsonrpc":"2.0"}`)
 		case "inv":
 			switch m.Var % 3 {
 			case 0:
